@@ -564,7 +564,7 @@ theorem counterexample_hint_default_tolerance_collides :
   decide +kernel
 
 /-- a hint normalises to its absolute value; a zero hint is refused -/
-theorem hint_options (h : Rat) (hh : h ≠ 0) : normaliseOpts { hint := some h } = .ok (some (rabs h), 1 / 100, 0) := by
+theorem hint_options (h : Rat) (hh : h ≠ 0) : normaliseOpts { hint := some h } = .ok (some (rabs h), defaultRtol, 0) := by
   unfold normaliseOpts rabs
   by_cases hneg : h < 0
   · have : ¬ -h = 0 := by intro e; apply hh; linarith
